@@ -20,7 +20,7 @@ from harness.common import fhex
 
 GEN_MODULES = ['weights']
 MODEL_TARGETS = ['model/M_Weights.vo']
-PROOF_TARGETS = ['proofs/P_WeightsComp.vo']
+PROOF_TARGETS = ['proofs/P_WeightsComp.vo', 'proofs/P_WeightsSvc.vo', 'proofs/P_WeightsTable.vo', 'proofs/P_WeightsPerm.vo']
 LEVEL = 'proof'
 RULE = ('yield tables with J<=4 datasets, K<=5 sources in 1..3 hypothesis groups, entries log-uniform over '
         '12 decades incl. exact zeros, zero dataset rows and zero source columns; pair tables duplicate-free '
